@@ -150,7 +150,8 @@ PROPS["C08"] = {
     "level": "proof",
     "verus": {"pool": POOL_FNS},
     "assumptions": [
-        "that Delete/Update::exec and drop_table call ValueRef::remove once per released cell is NOT covered (read: drop_table does not); catalog-table consistency is NOT covered",
+        "group droptbl (rule X14): the prefix of Package::drop_table -- its checks, the deletion of the table's rows, the removal of its stream -- with everything after it (the catalog rows, the tables map) an unconstrained continuation that may only be ENTERED with the cells of the table's rows released (a ghost log of released cells; found and fixed: D24, the stream was removed without releasing anything). TRUSTED, read from the code and not verified: Package::delete_rows(Delete::from(name)) -- Delete::exec is outside the subset -- releases every cell of every row of that table's stream and nothing else; Table::stream_name / is_valid_name are functions of the name; the tables map is keyed by the tables' own names",
+        "that Delete/Update::exec call ValueRef::remove once per released cell is NOT covered; catalog-table consistency is NOT covered",
         "StringPool::incref is a trusted contract in the Verus group; checked bounded by kani:pool_incref_2slots",
     ],
 }
